@@ -2,6 +2,14 @@
 from engines.arena_prop import run_arena_property
 
 def run(ctx):
+    # "split-off parts of a block count as separate live blocks" and "a collection buffer": the buffers of the
+    # parts produced by split_off / split_at on the real vector types must be disjoint and inside the original
+    # buffer (oracles of the coll harness, `split` profile; tagged C16 there)
+    try:
+        from engines.coll import run_coll, finish_coll_obligation
+        run_coll(ctx, 0, 10, "split", oracle_props=["C01", "C16"], label="split-buffers")
+    except ImportError:
+        pass
     return run_arena_property(ctx, ["BumpProof.Props.C01", "BumpProof.Props.Hist@C01"],
         runs_quick=[('general', 120, 100), ('prepared', 40, 100), ('scopes', 40, 100)],
         runs_thorough=[('general', 6000, 200), ('prepared', 2000, 200), ('scopes', 2000, 200), ('faults', 2000, 200)],
